@@ -172,6 +172,9 @@ func MultiPolygon(box orb.Bound, mp orb.MultiPolygon, o orb.Orientation) orb.Mul
 func clipRings(box orb.Bound, rings []orb.Ring) (open []orb.LineString, closed []orb.Ring) {
 	var result []orb.LineString
 	for _, r := range rings {
+		if len(r) == 0 {
+			continue
+		}
 		if !r.Closed() && (box.Contains(r[0]) || box.Contains(r[len(r)-1])) {
 			r = append(r, r[0])
 		}
